@@ -48,7 +48,8 @@ type Step struct {
 	Chunk   int         `json:"chunk,omitempty"` // body chunking: 0 whole, n>0 n-byte reads, <0 seeded random sizes
 	Faults  []Fault     `json:"faults,omitempty"`
 	API     *APICall    `json:"api,omitempty"`
-	Probe   bool        `json:"probe,omitempty"` // harness-initiated observation, not part of the workload
+	Probe   bool        `json:"probe,omitempty"`   // harness-initiated observation, not part of the workload
+	Chunked bool        `json:"chunked,omitempty"` // send the body with Transfer-Encoding: chunked (no announced length)
 
 	// CalDAV/CardDAV/robustness workloads
 	Kind      string   `json:"kind,omitempty"`      // request template
@@ -85,8 +86,10 @@ type Config struct {
 	Clients   int    `json:"clients"`    // number of caller nodes
 	MemfsSeed uint64 `json:"memfs_seed"` // metadata seed for the in-memory store
 
-	Server    string `json:"server,omitempty"` // "" (file server on Store) | caldav | carddav | webdav-mem | webdav-local | principal
-	Prefix    string `json:"prefix,omitempty"` // mount prefix of the CalDAV/CardDAV handler
+	Host      string `json:"host,omitempty"`      // Host header of raw requests (default dav.test)
+	RootForm  string `json:"root_form,omitempty"` // how the served directory is spelled in the configuration: "" clean | "slash" | "dot" | "double"
+	Server    string `json:"server,omitempty"`    // "" (file server on Store) | caldav | carddav | webdav-mem | webdav-local | principal
+	Prefix    string `json:"prefix,omitempty"`    // mount prefix of the CalDAV/CardDAV handler
 	WorldSeed uint64 `json:"world_seed,omitempty"`
 }
 
